@@ -197,11 +197,20 @@ def _mono_case(draw, tier):
                     pvals=draw(_pvals()), seed=draw(seeds),
                     init=draw(st.sampled_from(["random", "random", "svd"])),
                     steps=draw(st.integers(3, 10 if tier == "quick" else 40)))
-    # (min-leakage with >= 2 streams and the svd start on rectangular
-    # layouts are open findings, exercised by the post part: keep their
-    # share small here so that the monotonicity search goes on behind them)
-    Ns = draw(_ns(cls, cfg, high=(cls == "AltMin"),
-                  equal=draw(st.sampled_from([True, True, False]))))
+    # unequal stream counts matter here: the forward and the reverse
+    # network weight the users differently (P/Ns against P), and the cost
+    # only goes down when each update minimises the SAME weighted sum
+    Ns = draw(_ns(cls, cfg, high=(cls == "AltMin" or draw(st.booleans())),
+                  equal=draw(st.sampled_from([True, False, False]))))
+    if len(set(Ns)) == 1 and draw(st.booleans()):
+        lim = [min(a, b) - 1 for a, b in zip(cfg["Nr"], cfg["Nt"])]
+        if cls != "ClosedForm" and max(lim) >= 2:
+            # force different counts on a crowded channel (the leakage then
+            # does not vanish and the iteration keeps moving)
+            Ns = [draw(st.integers(max(1, l - 1), l)) for l in lim]
+            if len(set(Ns)) == 1:
+                k = lim.index(max(lim))
+                Ns[k] = Ns[k] - 1 if Ns[k] > 1 else Ns[k] + 1
     inits = [i for i in _inits(cls, cfg, Ns) if i != "alt_min" and
              (i != "svd" or cfg["Nr"] == cfg["Nt"])]
     return dict(part="mono", cls=cls, cfg=cfg, Ns=Ns,
@@ -209,7 +218,7 @@ def _mono_case(draw, tier):
                 p_form=draw(st.sampled_from(["none", "scalar", "scalar"])),
                 pvals=draw(_pvals()), seed=draw(seeds),
                 init=draw(st.sampled_from(inits)),
-                steps=draw(st.integers(3, 10 if tier == "quick" else 40)))
+                steps=draw(st.integers(3, 16 if tier == "quick" else 40)))
 
 
 _READABLE = ["F", "full_F", "W", "W_H", "full_W_H", "full_W", "Ns", "P",
@@ -311,7 +320,7 @@ def _hist_case(draw, tier):
 
 PARTS = [
     Part("post", _post_case, quick=2400, thorough=40000, quick_shards=8),
-    Part("mono", _mono_case, quick=900, thorough=10000, quick_shards=8),
+    Part("mono", _mono_case, quick=1600, thorough=10000, quick_shards=8),
     Part("hist", _hist_case, quick=2400, thorough=40000, quick_shards=8),
 ]
 
